@@ -48,8 +48,9 @@ LineFlags(l, last) ==
 HeaderLine(ms, l, last) ==
   LET common == LineFlags(l, last)
                 \cup F("C02_NoControlInHeader", ~l.ctl /\ ~l.barecr /\ l.eol = "crlf")
-                \cup F("C18_HeaderLineLength", l.len <= 78 \/ ~l.inner)
-                \cup F("C18_HeaderLine998", l.len <= 998)
+                \* the header section of the message itself / of a MIME part inside a multipart
+                \cup F(IF ms.secs = <<>> THEN "C18_HeaderLineLength" ELSE "C18_PartHeaderLineLength",
+                        l.len <= 78 \/ ~l.inner)
   IN
   IF l.len = 0 THEN          \* end of the header section
      [ms EXCEPT
